@@ -178,7 +178,7 @@ class C17(Scenario):
                    "bare scalars are only used with single-variable expressions"]
     expected_faults = ["memo_interleave"]
     expected_probes = ["memo_repeat_identical", "memo_repeat_equal_copy", "memo_change", "memo_array_batch", "memo_equal_value_other_type", "memo_function_fault", "string_first_scalar",
-                       "string_first_object", "string_first_dict", "wrapper_orders"]
+                       "string_first_object", "string_first_dict", "wrapper_orders", "wrapper_travelled", "memo_mutated_in_place", "memo_batch_mutated_in_place"]
 
     # ------------------------------------------------------------------ generation
     def generate(self, rng, tier, profile):
@@ -196,7 +196,10 @@ class C17(Scenario):
                                                        "underflow": None, "overflow": None, "nanflow": None},
                         {"p": "Select", "q": q(2, "b"), "cut": {"p": "Deviate", "q": q(0, "x")}}, {"p": "Minimize", "q": q(1, "y")},
                         {"p": "Categorize", "q": q(3, "s"), "value": {"p": "Sum", "q": q(1, "y")}},
-                        {"p": "Categorize", "q": q(4, "c"), "value": None}, {"p": "Bag", "q": q(0, "x"), "range": "N"}]
+                        {"p": "Categorize", "q": q(4, "c"), "value": None}, {"p": "Bag", "q": q(0, "x"), "range": "N"},
+                        # a cached weight transform shared by the Counts of a Bin (fill.numpy hands every bin its own weights)
+                        {"p": "Bin", "num": 4, "low": -2.0, "high": 2.0, "q": q(0, "x"), "value": {"p": "Count", "transform": "sq", "tq": {"id": 7}},
+                         "underflow": {"p": "Count", "transform": "sq", "tq": {"id": 7}}, "overflow": None, "nanflow": None}]
                 t.shuffle(kids)
                 return {"p": "Branch", "values": kids[: t.randint(2, 6)]}
 
@@ -211,18 +214,19 @@ class C17(Scenario):
             for si in range(s.randint(4, 30)):
                 tr = s.randrange(2)
                 if s.chance(0.7):
-                    mode = s.pick(["same", "copy", "retype", "new", "new"])
+                    mode = s.pick(["same", "copy", "retype", "new", "new", "mutate", "mutate"])
                     rec = s.randrange(len(recs)) if (mode == "new" or last is None or last[0] != "row") else last[1]
                     steps.append({"op": "fill", "tree": tr, "rec": rec, "how": mode if (last and last[0] == "row") else "new", "w": s.pick([1.0, 1.0, 0.5, 2.0]),
-                                  "actor": "T%d" % tr})
+                                  "actor": "T%d" % tr, "rec2": s.randrange(len(recs)), "fld": s.pick(["x", "y", "x", "s"])})
                     last = ("row", rec)
                 else:
-                    mode = s.pick(["same", "copy", "new"])
+                    mode = s.pick(["same", "copy", "new", "mutate"])
                     if mode != "new" and last and last[0] == "np":
                         rows, box = last[1], last[2]
                     else:
                         rows, box, mode = [s.randrange(len(recs)) for _ in range(s.randint(1, 5))], s.pick(["dict", "frame", "rec"]), "new"
-                    steps.append({"op": "fillnumpy", "tree": tr, "rows": rows, "box": box, "how": mode, "actor": "T%d" % tr})
+                    steps.append({"op": "fillnumpy", "tree": tr, "rows": rows, "box": box, "how": mode, "actor": "T%d" % tr,
+                                  "rec2": s.randrange(len(recs)), "fld": s.pick(["x", "y"])})
                     last = ("np", rows, box)
             return {"kind": "shared-memo", "specs": specs, "records": [specmod.enc_record(r) for r in recs], "steps": steps}
         # string-twin
@@ -317,11 +321,39 @@ class C17(Scenario):
                                                  "orders %s and %s give wrappers that differ (==, mirrored ==, same hash: %s)" % (
                                                      "/".join(p1), "/".join(p2), e.value if e.ok else e.describe()), si)
                     if "named" in subset:
+                        import pickle
+
+                        import histogrammar as hg
+
                         for perm, f in results:
-                            o = call(named, "other", f)
-                            if o.ok or not isinstance(o.exc, ValueError):
-                                raise self.violation("util", "wrap", "second-name-accepted",
-                                                     "named() on an already named wrapper (%s) %s" % ("/".join(perm), "returned normally" if o.ok else o.describe()), si)
+                            # the wrapper itself, and the same wrapper after it has travelled (pickled alone, twice, inside
+                            # an aggregator, copied with its aggregator): a name once given stays given
+                            routes = [("fresh", lambda f=f: f), ("pickled", lambda f=f: pickle.loads(pickle.dumps(f))),
+                                      ("pickled-twice", lambda f=f: pickle.loads(pickle.dumps(pickle.loads(pickle.dumps(f))))),
+                                      ("in-pickled-aggregator", lambda f=f: pickle.loads(pickle.dumps(hg.Sum(f))).quantity),
+                                      ("in-copied-aggregator", lambda f=f: hg.Sum(f).copy().quantity)]
+                            for route, get in routes:
+                                g = call(get)
+                                if not g.ok:
+                                    continue  # pickling is C11's business
+                                if route != "fresh":
+                                    w.bump("probe_wrapper_travelled")
+                                    if g.value.name != f.name or isinstance(g.value, CachedFcn) != isinstance(f, CachedFcn):
+                                        raise self.violation("util", "wrap", "changed-in-transit:%s" % route,
+                                                             "wrapper %s (%s) arrives as %r" % ("/".join(perm), route, g.value), si)
+                                for again in ("named", "named-cached", "named-serializable"):
+                                    def rename(x=g.value, again=again):
+                                        if again == "named-cached":
+                                            x = cached(x)
+                                        elif again == "named-serializable":
+                                            x = serializable(x)
+                                        return named("other", x)
+
+                                    o = call(rename)
+                                    if o.ok or not isinstance(o.exc, ValueError):
+                                        raise self.violation("util", "wrap", "second-name-accepted" + ("" if route == "fresh" else ":" + route),
+                                                             "%s on an already named wrapper (%s, %s) %s" % (
+                                                                 again, "/".join(perm), route, "returned normally" if o.ok else o.describe()), si)
             w.bump("probe_wrapper_orders")
             w.record_step(st)
         R["nontrivial"] = True
@@ -336,6 +368,8 @@ class C17(Scenario):
             for _, s in specmod.walk(plain):
                 if "q" in s and s["q"]["kind"] == "shared":
                     s["q"]["mode"] = "plain"
+                if s.get("tq"):
+                    s["tq"]["mode"] = "plain"
             a = call(specmod.build, sp, None, None, qreg)
             b = call(specmod.build, plain, None, None, qreg)
             for o in (a, b):
@@ -364,6 +398,13 @@ class C17(Scenario):
                     datum = dict(base)
                     w.bump("probe_memo_repeat_equal_copy")
                     rep += 1
+                elif how == "mutate" and last_row is not None and last_row[0] == st["rec"] and st.get("rec2", 0) < len(w.records):
+                    # the caller reuses one record object as a buffer: same object, one field overwritten in place
+                    datum = last_row[1]
+                    datum[st.get("fld", "x")] = w.records[st["rec2"]][st.get("fld", "x")]
+                    base = dict(datum)
+                    w.bump("probe_memo_mutated_in_place")
+                    chg += 1
                 elif how == "retype" and last_row is not None and last_row[0] == st["rec"]:
                     # an equal-valued record whose fields have another type (True / 1.0 / 1): == says equal, the
                     # function may not (Categorize accepts a bool but not the number 1.0)
@@ -385,9 +426,22 @@ class C17(Scenario):
                     continue
                 how = st.get("how", "new")
                 key = (tuple(st["rows"]), st["box"])
+                twin_box = None
                 if how == "same" and last_box is not None and last_box[0] == key:
                     b = last_box[1]
+                    twin_box = copy.deepcopy(b)
                     rep += 1
+                elif how == "mutate" and last_box is not None and last_box[0] == key and st.get("rec2", 0) < len(w.records) and len(st["rows"]):
+                    # the batch container is reused as a buffer: first row of one column overwritten in place
+                    b = last_box[1]
+                    fld, val = st.get("fld", "x"), float(w.records[st["rec2"]][st.get("fld", "x")])
+                    if hasattr(b, "iloc"):
+                        b.iloc[0, list(b.columns).index(fld)] = val
+                    else:
+                        b[fld][0] = val
+                    twin_box = copy.deepcopy(b)
+                    w.bump("probe_memo_batch_mutated_in_place")
+                    chg += 1
                 else:
                     b = make_box(w.records, st["rows"], st["box"])
                     if how == "copy" and last_box is not None and last_box[0] == key:
@@ -397,7 +451,7 @@ class C17(Scenario):
                 last_box = (key, b)
                 w.bump("probe_memo_array_batch")
                 o1 = call(trees[tr].fill.numpy, b)
-                o2 = call(twins[tr].fill.numpy, make_box(w.records, st["rows"], st["box"]))
+                o2 = call(twins[tr].fill.numpy, twin_box if twin_box is not None else make_box(w.records, st["rows"], st["box"]))
             calls += 1
             w.bump("fault_memo_interleave")
             if o1.ok != o2.ok:
